@@ -1450,6 +1450,19 @@ impl RefBuilder {
     }
 }
 
+/// Which properties are judged on graphs built from call histories (bit k = property Ck).
+static HISTORY_PROPS_DEFAULT: std::sync::atomic::AtomicU32 = std::sync::atomic::AtomicU32::new(1 << 16);
+
+fn history_props() -> u32 {
+    // worker threads start from the process-wide setting
+    HISTORY_PROPS_DEFAULT.load(std::sync::atomic::Ordering::Relaxed)
+}
+
+pub fn set_history_props(props: &[u8]) {
+    let m = props.iter().fold(0u32, |m, p| m | 1 << *p);
+    HISTORY_PROPS_DEFAULT.store(m, std::sync::atomic::Ordering::Relaxed);
+}
+
 fn c16_eval(n: usize, calls: &[Call], batch: usize, st: &mut Stats) {
     c16_eval_mode(n, calls, batch, false, st)
 }
@@ -1466,6 +1479,7 @@ fn c16_eval_mode(n: usize, calls: &[Call], batch: usize, lazy: bool, st: &mut St
     } else {
         format!("call_sequence_batch{batch}")
     };
+    let props0 = history_props();
     let r = catch_quiet(|| {
         let mut b = FnGraphBuilder::new();
         let mut ids: Vec<FnId> = if lazy { vec![] } else { (0..n).map(|i| b.add_fn(Node::new(i, vec![]))).collect() };
@@ -1503,15 +1517,36 @@ fn c16_eval_mode(n: usize, calls: &[Call], batch: usize, lazy: bool, st: &mut St
                 results.push(ok);
             }
         }
-        let g = b.build();
-        (results, raw_edges(&g))
+        let mut g = b.build();
+        let ranks: Vec<usize> = if props0 >> 13 & 1 == 1 { g.ranks().iter().map(|r| r.0).collect() } else { vec![] };
+        let (mut it, mut itr, mut fold) = (vec![], vec![], vec![]);
+        if props0 >> 14 & 1 == 1 {
+            it = g.iter().map(|f| f.id).collect();
+            itr = g.iter_rev().map(|f| f.id).collect();
+            fold = g.fold(vec![], |mut v: Vec<usize>, f| {
+                v.push(f.id);
+                v
+            });
+        }
+        let (mut gi_nodes, mut gi_edges) = (vec![], vec![]);
+        if props0 >> 17 & 1 == 1 {
+            let gi: GraphInfo<usize> = GraphInfo::from_graph(&g, |f| f.id);
+            gi_nodes = gi.iter_insertion_with_indices().map(|(_, v)| *v).collect();
+            gi_edges = gi.graph.raw_edges().iter().map(|e| (e.source().index(), e.target().index(), e.weight)).collect();
+        }
+        (results, raw_edges(&g), ranks, it, itr, fold, gi_nodes, gi_edges)
     });
     st.execs += 1;
     st.transitions += calls.len() as u64;
-    let (results, raw) = match r {
+    let props = props0;
+    let (results, raw, ranks, it, itr, fold, gi_nodes, gi_edges) = match r {
         Ok(x) => x,
         Err(m) => {
-            bviol(st, 16, &spec, &what, format!("builder panicked: {m}"));
+            for p in [11u8, 16] {
+                if props >> p & 1 == 1 {
+                    bviol(st, p, &spec, &what, format!("builder panicked: {m}"));
+                }
+            }
             return;
         }
     };
@@ -1535,7 +1570,8 @@ fn c16_eval_mode(n: usize, calls: &[Call], batch: usize, lazy: bool, st: &mut St
             want.push(ok);
         }
     }
-    if results != want {
+    let has = |p: u8| props >> p & 1 == 1;
+    if has(16) && results != want {
         bviol(st, 16, &spec, &what, format!("accept/reject results {results:?}, reference {want:?}"));
     }
     let want_edges: Vec<(usize, usize, Edge)> = model.order.iter().map(|p| (p.0, p.1, kind_of(model.kind[p]))).collect();
@@ -1544,7 +1580,48 @@ fn c16_eval_mode(n: usize, calls: &[Call], batch: usize, lazy: bool, st: &mut St
     got.sort_by_key(|e| (e.0, e.1, ek(e.2)));
     wsorted.sort_by_key(|e| (e.0, e.1, ek(e.2)));
     if got != wsorted {
-        bviol(st, 16, &spec, &what, format!("edges of the built graph {raw:?}, reference {want_edges:?}"));
+        for p in [11u8, 16] {
+            if has(p) {
+                bviol(st, p, &spec, &what, format!("edges of the built graph {raw:?}, reference (accepted pairs, each with the kind it was last given with) {want_edges:?}"));
+            }
+        }
+    }
+    // the graph-level properties hold for graphs built through any call history
+    let accepted: Vec<(usize, usize)> = model.order.clone();
+    if has(13) {
+        let want_ranks = crate::graphs::longest_rank(n, &accepted);
+        if ranks != want_ranks {
+            bviol(st, 13, &spec, &what, format!("ranks() = {ranks:?}, longest chains over the accepted edges {accepted:?} = {want_ranks:?}"));
+        }
+    }
+    if has(14) {
+        for (name, order, fwd) in [("iter", &it, true), ("iter_rev", &itr, false), ("fold", &fold, true)] {
+            let mut pos = vec![usize::MAX; n];
+            let mut ok = order.len() == n;
+            for (k, &i) in order.iter().enumerate() {
+                if i >= n || pos[i] != usize::MAX {
+                    ok = false;
+                    break;
+                }
+                pos[i] = k;
+            }
+            if !ok {
+                bviol(st, 14, &spec, &what, format!("{name} visited {order:?}: not each function exactly once"));
+                continue;
+            }
+            if let Some(&(a, b)) = accepted.iter().find(|&&(a, b)| if fwd { pos[a] > pos[b] } else { pos[a] < pos[b] }) {
+                bviol(st, 14, &spec, &what, format!("{name} visited {order:?}: violates the accepted edge {a}->{b}"));
+            }
+        }
+    }
+    if has(17) {
+        let mut a = eh(&gi_edges);
+        let mut b = eh(&raw);
+        a.sort_unstable();
+        b.sort_unstable();
+        if a != b || gi_nodes != (0..n).collect::<Vec<_>>() {
+            bviol(st, 17, &spec, &what, format!("GraphInfo nodes {gi_nodes:?} edges {gi_edges:?}, graph edges {raw:?}"));
+        }
     }
     let h = hash64(&(eh(&want_edges), &want));
     st.state_hashes.insert(h);
@@ -1558,7 +1635,21 @@ fn c16_eval_mode(n: usize, calls: &[Call], batch: usize, lazy: bool, st: &mut St
 }
 
 pub fn run_c16(tier: &str, deadline: Instant, total: &mut Stats, log: &mut Vec<Value>) {
-    let plans: Vec<(usize, usize)> = if tier == "thorough" { vec![(2, 8), (3, 6), (4, 5)] } else { vec![(2, 5), (3, 4), (4, 3)] };
+    set_history_props(&[16]);
+    run_call_histories(tier, false, deadline, total, log);
+}
+
+/// The call-history spaces of C16 (rejected, repeated, batched, lazily interleaved calls) as
+/// inputs for another builder-side property (`set_history_props` chooses the oracle); `light`:
+/// shorter sequences, no probe search.
+pub fn run_call_histories(tier: &str, light: bool, deadline: Instant, total: &mut Stats, log: &mut Vec<Value>) {
+    let plans: Vec<(usize, usize)> = if light {
+        if tier == "thorough" { vec![(2, 5), (3, 4), (4, 3)] } else { vec![(2, 4), (3, 3), (4, 2)] }
+    } else if tier == "thorough" {
+        vec![(2, 8), (3, 6), (4, 5)]
+    } else {
+        vec![(2, 5), (3, 4), (4, 3)]
+    };
     for (n, maxlen) in plans {
         let alphabet: Vec<Call> = (0..n).flat_map(|a| (0..n).flat_map(move |b| [false, true].into_iter().map(move |c| Call { from: a, to: b, contains: c }))).collect();
         let k = alphabet.len();
@@ -1620,7 +1711,9 @@ pub fn run_c16(tier: &str, deadline: Instant, total: &mut Stats, log: &mut Vec<V
     }
     // sizes around the power-of-two thresholds: every sequence over five representative functions
     // (the first three and the last two), functions added up front and added lazily between calls
-    let sizes: Vec<(usize, usize)> = if tier == "thorough" {
+    let sizes: Vec<(usize, usize)> = if light {
+        vec![(5, 2), (9, 2), (17, 2)]
+    } else if tier == "thorough" {
         vec![(5, 4), (8, 3), (9, 4), (10, 3), (16, 3), (17, 3), (18, 3), (32, 3), (33, 3), (34, 3), (64, 3), (65, 3), (66, 3), (129, 3), (257, 2)]
     } else {
         vec![(5, 3), (9, 3), (17, 3), (33, 3), (65, 3), (129, 2)]
@@ -1660,6 +1753,9 @@ pub fn run_c16(tier: &str, deadline: Instant, total: &mut Stats, log: &mut Vec<V
         log.push(json!({"space": label, "sequences": st.execs, "completed": !st.capped, "wall_s": t0.elapsed().as_secs_f64()}));
         eprintln!("  [{label}] evaluated={} viol={} {}{:.1}s", st.execs, st.viol_total, if st.capped { "CAPPED " } else { "" }, t0.elapsed().as_secs_f64());
         total.merge(st);
+    }
+    if light {
+        return;
     }
     // deeper histories on more functions: grow a DAG edge by edge, probe every call in every state
     let probes: Vec<(usize, usize)> = if tier == "thorough" { vec![(5, 8), (6, 6), (6, 7)] } else { vec![(5, 7), (6, 6)] };
@@ -1832,6 +1928,12 @@ pub fn run_build_props(prop: u8, tier: &str, deadline: Instant, total: &mut Stat
                 run_build_space(sp, deadline, &f, total, log);
             }
             run_declared_families(tier, deadline, &f, total, log);
+            if prop == 11 {
+                // "keeps the user's graph" on graphs built through call histories with rejected,
+                // repeated, batched and lazily interleaved calls
+                set_history_props(&[11]);
+                run_call_histories(tier, true, deadline, total, log);
+            }
             if prop != 6 {
                 let f6 = move |s: &Spec, st: &mut Stats| check_built(s, &[prop], st);
                 let alphabet: &[u8] = if thorough { &[0, 1, 2] } else { &[0, 2] };
@@ -1884,6 +1986,9 @@ pub fn run_build_props(prop: u8, tier: &str, deadline: Instant, total: &mut Stat
             };
             run_family_space("sparse / dense families up to n=40 (chains, stars, trees, bipartite, complete, layered, diamonds), both insertion orders", members, deadline, &g, total, log);
             run_declared_families(tier, deadline, &f, total, log);
+            // graphs built through call histories with rejected, repeated, batched and lazily interleaved calls
+            set_history_props(&[13]);
+            run_call_histories(tier, true, deadline, total, log);
         }
         14 => {
             let f = |s: &Spec, st: &mut Stats| check_iteration(s, st);
@@ -1896,6 +2001,9 @@ pub fn run_build_props(prop: u8, tier: &str, deadline: Instant, total: &mut Stat
                 run_build_space(sp, deadline, &f, total, log);
             }
             run_declared_families(tier, deadline, &f, total, log);
+            // graphs built through call histories with rejected, repeated, batched and lazily interleaved calls
+            set_history_props(&[14]);
+            run_call_histories(tier, true, deadline, total, log);
             // histories of sequential calls on one graph value
             let plan: Vec<(usize, usize)> = if thorough { vec![(0, 3), (1, 5), (2, 5), (3, 4), (4, 3), (5, 2)] } else { vec![(0, 3), (1, 4), (2, 4), (3, 4), (4, 2)] };
             for (n, depth) in plan {
@@ -1921,6 +2029,9 @@ pub fn run_build_props(prop: u8, tier: &str, deadline: Instant, total: &mut Stat
                 run_build_space(sp, deadline, &f, total, log);
             }
             run_declared_families(tier, deadline, &f, total, log);
+            // graphs built through call histories with rejected, repeated, batched and lazily interleaved calls
+            set_history_props(&[17]);
+            run_call_histories(tier, true, deadline, total, log);
             {
                 // graphs extended through DerefMut after build(): GraphInfo mirrors `graph`
                 let mut st = Stats::default();
